@@ -44,6 +44,7 @@ def run(tape, scenario):
 
     multi = scenario == "processes"
     parallel = scenario != "tasks-plain"
+    cancel_faults = tape.chance("cfg/cancel-faults", 50)
     env = Env(tape, faults=WireFaults(delay_buckets=(50e-6, 20e-6, 150e-6)), with_fs=parallel)
     world, bus = env.world, env.bus
     bus.route_by_data0 = parallel
@@ -85,19 +86,62 @@ def run(tape, scenario):
         ec.ethertype = 0x3000 + 16 * u + 1
         return ec
 
+    done_ops = {}
+    busy = {}            # user -> has a request out whose answer it has not read yet
+    task_user = {}
+
+    def instrument(tobj):
+        """mark the span mbx_send .. mbx_recv of every user of this Terminal object"""
+        orig_send, orig_recv = tobj.mbx_send, tobj.mbx_recv
+
+        async def mbx_send(*a, **k):
+            busy[task_user.get(asyncio.current_task())] = True
+            return await orig_send(*a, **k)
+
+        async def mbx_recv(*a, **k):
+            ret = await orig_recv(*a, **k)
+            busy[task_user.get(asyncio.current_task())] = False
+            return ret
+        tobj.mbx_send, tobj.mbx_recv = mbx_send, mbx_recv
+        return tobj
+
+    async def user_ops(u, t, nops):
+        task_user[asyncio.current_task()] = u
+        while done_ops.get(u, 0) < nops:
+            k = done_ops.get(u, 0)
+            pause = tape.draw("c15/pause", 4)
+            if pause:
+                await asyncio.sleep([0, 0, 40e-6, 300e-6][pause])
+            if tape.chance("c15/write-op", 40):
+                await t.sdo_write(struct.pack("<I", 0x5000 + 16 * u + k), 0x2000 + u, 1)
+            else:
+                got = await t.sdo_read(0x2000 + u, 1)
+                if len(got) != 4:
+                    viol("wrong-answer", f"user {u} read {got!r}")
+            done_ops[u] = k + 1
+
     async def user(u, t, nops):
-        """one mailbox user: `nops` exchanges on terminal object `t`"""
+        """one mailbox user: `nops` exchanges on terminal object `t`; with the cancel
+        fault its task is cancelled (a timeout of the caller) at a drawn moment at which
+        it has no request out, e.g. while it waits for the lock, and then retries"""
+        cancels = tape.draw("fault/cancel-user", 4) if cancel_faults else 0
+        cancels = cancels if cancels < 3 else 0
         try:
-            for k in range(nops):
-                pause = tape.draw("c15/pause", 4)
-                if pause:
-                    await asyncio.sleep([0, 0, 40e-6, 300e-6][pause])
-                if tape.chance("c15/write-op", 40):
-                    await t.sdo_write(struct.pack("<I", 0x5000 + 16 * u + k), 0x2000 + u, 1)
-                else:
-                    got = await t.sdo_read(0x2000 + u, 1)
-                    if len(got) != 4:
-                        viol("wrong-answer", f"user {u} read {got!r}")
+            while True:
+                task = asyncio.ensure_future(user_ops(u, t, nops))
+                while cancels and not task.done():
+                    await asyncio.sleep([15e-6, 60e-6, 250e-6, 900e-6][tape.draw("c15/cancel-at", 4)])
+                    if not task.done() and not busy.get(u):
+                        task.cancel()
+                        cancels -= 1
+                        world.count("fault/user-cancelled-while-idle-or-waiting")
+                        break
+                try:
+                    await task
+                    break
+                except asyncio.CancelledError:
+                    if not task.cancelled() or asyncio.current_task().cancelling():
+                        raise
             outcomes[u] = "ok"
         except asyncio.CancelledError:
             outcomes[u] = "cancelled"
@@ -112,7 +156,7 @@ def run(tape, scenario):
         if parallel:
             ec.mbx_lock_file = LockFile("/run/ebpf/sim0", *ec.terminal_addr_range)
         await EtherCat.connect(ec)
-        tobj = [preinit(ec, st) for st, _ in sterms]
+        tobj = [instrument(preinit(ec, st)) for st, _ in sterms]
         tasks = [asyncio.ensure_future(user(u, tobj[user_term[u]], nops[u]))
                  for u in range(nusers)]
         await asyncio.wait(tasks, timeout=5)
@@ -128,7 +172,7 @@ def run(tape, scenario):
                 ec = make_ec(pno)
                 ec.mbx_lock_file = LockFile("/run/ebpf/sim0", *ec.terminal_addr_range)
                 await EtherCat.connect(ec)
-                tobj = [preinit(ec, st) for st, _ in sterms]
+                tobj = [instrument(preinit(ec, st)) for st, _ in sterms]
                 await asyncio.wait_for(asyncio.gather(
                     *[user(u, tobj[user_term[u]], nops[u]) for u in mine]), 5)
             except asyncio.TimeoutError:
